@@ -63,6 +63,9 @@ Record cons := {
   ww_res : bool; ww_nonce : nat; ww_prom : option (nat * nat); ww_once : bool; ww_fired : nat; ww_firepc : option rpc;
   (* Access: state guarded by its private Broadcast *)
   ac_val : nat; ac_err : nat; ac_res : bool; ac_nonce : nat; ac_snap : nat; ac_cbcanc : bool; ac_cbres : nat;
+  (* the watcher goroutine of the running callback invocation (it cancels the callback's context when the wait channel closes):
+     woken by a change and parked before its cbCancel(); watchers of finished invocations that are still parked there *)
+  ac_wpark : bool; ac_wstale : nat;
 }.
 
 (* fx_accnonce = false is the seeded variant C10_A of Access ("value equal again" counts as unchanged) *)
@@ -158,7 +161,7 @@ Definition gor0 : gor := {| gcanc := true; gwait := None; gnonce := 0; gpcv := G
 Definition cons0 : cons :=
   {| ck := CKWait; cref := 0; ccanc := true; cpcv := CRet 0 1 false; cw_res := None; ww_res := false; ww_nonce := 0; ww_prom := None;
      ww_once := false; ww_fired := 0; ww_firepc := None; ac_val := 0; ac_err := 0; ac_res := false; ac_nonce := 0; ac_snap := 0;
-     ac_cbcanc := false; ac_cbres := 0 |}.
+     ac_cbcanc := false; ac_cbres := 0; ac_wpark := false; ac_wstale := 0 |}.
 Definition getg (s : st) (g : nat) : gor := nth g (gs s) gor0.
 Definition getc (s : st) (c : nat) : cons := nth c (conss s) cons0.
 Definition gdone (x : gor) : bool := match gpcv x with GDone => true | _ => false end.
@@ -173,7 +176,7 @@ Definition nrefs (s : st) : nat := cnt rin (refs s).
 Definition with_cpc (x : cons) (p : cpc) : cons :=
   {| ck := ck x; cref := cref x; ccanc := ccanc x; cpcv := p; cw_res := cw_res x; ww_res := ww_res x; ww_nonce := ww_nonce x;
      ww_prom := ww_prom x; ww_once := ww_once x; ww_fired := ww_fired x; ww_firepc := ww_firepc x; ac_val := ac_val x; ac_err := ac_err x;
-     ac_res := ac_res x; ac_nonce := ac_nonce x; ac_snap := ac_snap x; ac_cbcanc := ac_cbcanc x; ac_cbres := ac_cbres x |}.
+     ac_res := ac_res x; ac_nonce := ac_nonce x; ac_snap := ac_snap x; ac_cbcanc := ac_cbcanc x; ac_cbres := ac_cbres x; ac_wpark := ac_wpark x; ac_wstale := ac_wstale x |}.
 
 (* Wait's callback: !resolved -> promCtr.SetPromise(nil); else promCtr.SetResult(val, err) *)
 Definition cb_wait (x : cons) (n : notif) : cons :=
@@ -181,7 +184,7 @@ Definition cb_wait (x : cons) (n : notif) : cons :=
      cw_res := match n with NGone => None | NRes v e => Some (v, e) end;
      ww_res := ww_res x; ww_nonce := ww_nonce x; ww_prom := ww_prom x; ww_once := ww_once x; ww_fired := ww_fired x; ww_firepc := ww_firepc x;
      ac_val := ac_val x; ac_err := ac_err x; ac_res := ac_res x; ac_nonce := ac_nonce x; ac_snap := ac_snap x; ac_cbcanc := ac_cbcanc x;
-     ac_cbres := ac_cbres x |}.
+     ac_cbres := ac_cbres x; ac_wpark := ac_wpark x; ac_wstale := ac_wstale x |}.
 
 (* WaitWithReleased's callback; [cur] is r.nonce at the time of the call.  Returns whether callReleasedOnce fired now. *)
 Definition cb_wwr (x : cons) (n : notif) (cur : nat) : cons * bool :=
@@ -190,7 +193,7 @@ Definition cb_wwr (x : cons) (n : notif) (cur : nat) : cons * bool :=
     if changed && negb (ww_once x) then
       ({| ck := ck x; cref := cref x; ccanc := ccanc x; cpcv := cpcv x; cw_res := cw_res x; ww_res := true; ww_nonce := ww_nonce x;
           ww_prom := ww_prom x; ww_once := true; ww_fired := ww_fired x; ww_firepc := ww_firepc x; ac_val := ac_val x; ac_err := ac_err x;
-          ac_res := ac_res x; ac_nonce := ac_nonce x; ac_snap := ac_snap x; ac_cbcanc := ac_cbcanc x; ac_cbres := ac_cbres x |}, true)
+          ac_res := ac_res x; ac_nonce := ac_nonce x; ac_snap := ac_snap x; ac_cbcanc := ac_cbcanc x; ac_cbres := ac_cbres x; ac_wpark := ac_wpark x; ac_wstale := ac_wstale x |}, true)
     else (x, false)
   else
     match n with
@@ -198,7 +201,7 @@ Definition cb_wwr (x : cons) (n : notif) (cur : nat) : cons * bool :=
       ({| ck := ck x; cref := cref x; ccanc := ccanc x; cpcv := cpcv x; cw_res := cw_res x; ww_res := true; ww_nonce := cur;
           ww_prom := match ww_prom x with Some p => Some p | None => Some (v, e) end;
           ww_once := ww_once x; ww_fired := ww_fired x; ww_firepc := ww_firepc x; ac_val := ac_val x; ac_err := ac_err x;
-          ac_res := ac_res x; ac_nonce := ac_nonce x; ac_snap := ac_snap x; ac_cbcanc := ac_cbcanc x; ac_cbres := ac_cbres x |}, false)
+          ac_res := ac_res x; ac_nonce := ac_nonce x; ac_snap := ac_snap x; ac_cbcanc := ac_cbcanc x; ac_cbres := ac_cbres x; ac_wpark := ac_wpark x; ac_wstale := ac_wstale x |}, false)
     | NGone => (x, false)
     end.
 
@@ -207,9 +210,12 @@ Definition cb_wwr (x : cons) (n : notif) (cur : nat) : cons * bool :=
 Definition with_fire (x : cons) (fired : nat) (p : option rpc) : cons :=
   {| ck := ck x; cref := cref x; ccanc := ccanc x; cpcv := cpcv x; cw_res := cw_res x; ww_res := ww_res x; ww_nonce := ww_nonce x;
      ww_prom := ww_prom x; ww_once := ww_once x; ww_fired := fired; ww_firepc := p; ac_val := ac_val x; ac_err := ac_err x;
-     ac_res := ac_res x; ac_nonce := ac_nonce x; ac_snap := ac_snap x; ac_cbcanc := ac_cbcanc x; ac_cbres := ac_cbres x |}.
+     ac_res := ac_res x; ac_nonce := ac_nonce x; ac_snap := ac_snap x; ac_cbcanc := ac_cbcanc x; ac_cbres := ac_cbres x; ac_wpark := ac_wpark x; ac_wstale := ac_wstale x |}.
 
-(* Access's callback: if anything differs, store it, bump the nonce, broadcast (which cancels a running callback) *)
+(* Access's callback: if anything differs, store it, bump the nonce, broadcast.  The broadcast closes the wait channel of the
+   running invocation: its watcher goroutine - alive while the callback's context is not cancelled - wakes up and is then
+   parked before its cbCancel() ([ac_wpark]); the context is cancelled by the watcher's own step ([EWatch]).  With a cancelled
+   caller context the watcher has already gone and the callback's context is cancelled through its parent. *)
 Definition cb_access (x : cons) (n : notif) : cons :=
   let '(r, v, e) := match n with NGone => (false, 0, 0) | NRes v e => (true, v, e) end in
   if Bool.eqb r (ac_res x) && Nat.eqb v (ac_val x) && Nat.eqb e (ac_err x) then x
@@ -217,7 +223,8 @@ Definition cb_access (x : cons) (n : notif) : cons :=
     {| ck := ck x; cref := cref x; ccanc := ccanc x; cpcv := cpcv x; cw_res := cw_res x; ww_res := ww_res x; ww_nonce := ww_nonce x;
        ww_prom := ww_prom x; ww_once := ww_once x; ww_fired := ww_fired x; ww_firepc := ww_firepc x; ac_val := v; ac_err := e;
        ac_res := r; ac_nonce := S (ac_nonce x); ac_snap := ac_snap x;
-       ac_cbcanc := match cpcv x with CAccCb _ => true | _ => ac_cbcanc x end; ac_cbres := ac_cbres x |}.
+       ac_cbcanc := match cpcv x with CAccCb _ => ac_cbcanc x || ccanc x | _ => ac_cbcanc x end; ac_cbres := ac_cbres x;
+       ac_wpark := match cpcv x with CAccCb _ => ac_wpark x || negb (ac_cbcanc x || ccanc x) | _ => ac_wpark x end; ac_wstale := ac_wstale x |}.
 
 (* ---------- invoking a reference callback (under the mutex) ---------- *)
 Definition set_last (s : st) (r : nat) (n : notif) : st :=
@@ -425,7 +432,7 @@ Definition async_section (s : st) (a : nat) : st :=
 Definition new_cons (k : ckind) (r : nat) : cons :=
   {| ck := k; cref := r; ccanc := false; cpcv := CBlocked;
      cw_res := None; ww_res := false; ww_nonce := 0; ww_prom := None; ww_once := false; ww_fired := 0; ww_firepc := None;
-     ac_val := 0; ac_err := 0; ac_res := false; ac_nonce := 0; ac_snap := 0; ac_cbcanc := false; ac_cbres := 0 |}.
+     ac_val := 0; ac_err := 0; ac_res := false; ac_nonce := 0; ac_snap := 0; ac_cbcanc := false; ac_cbres := 0; ac_wpark := false; ac_wstale := 0 |}.
 
 (* Wait / ResolveWithReleased / Access start: the consumer record exists before its reference is added, so that a
    callback invoked inside AddRef finds it *)
@@ -447,7 +454,7 @@ Definition cons_fail (s : st) (c : nat) (x : cons) (e : nat) : st :=
 Definition acc_set (x : cons) (p : cpc) (n sn : nat) (cbc : bool) : cons :=
   {| ck := ck x; cref := cref x; ccanc := ccanc x; cpcv := p; cw_res := cw_res x; ww_res := ww_res x; ww_nonce := ww_nonce x;
      ww_prom := ww_prom x; ww_once := ww_once x; ww_fired := ww_fired x; ww_firepc := ww_firepc x; ac_val := ac_val x; ac_err := ac_err x;
-     ac_res := ac_res x; ac_nonce := n; ac_snap := sn; ac_cbcanc := cbc; ac_cbres := ac_cbres x |}.
+     ac_res := ac_res x; ac_nonce := n; ac_snap := sn; ac_cbcanc := cbc; ac_cbres := ac_cbres x; ac_wpark := ac_wpark x; ac_wstale := ac_wstale x |}.
 
 (* Access returns [code]: the deferred ref.Release() goes through the release gate, then the call returns *)
 Definition acc_ret (s : st) (c : nat) (x : cons) (code : nat) : st :=
@@ -490,19 +497,47 @@ Definition cons_step (s : st) (c : nat) : st :=
 
 (* the Access callback returns [res]: 0 nil, 1 "return ctx.Err()" (Canceled iff its context is cancelled), otherwise an
    error code.  Then: ctx.Err() check, section S2 (same nonce?), return or loop *)
+(* the deferred cbCancel() of the invocation: a watcher that was woken and is still parked stays parked (its cancel is a no-op
+   later); one that was not woken exits *)
+Definition cb_done (x : cons) : cons :=
+  {| ck := ck x; cref := cref x; ccanc := ccanc x; cpcv := cpcv x; cw_res := cw_res x; ww_res := ww_res x; ww_nonce := ww_nonce x;
+     ww_prom := ww_prom x; ww_once := ww_once x; ww_fired := ww_fired x; ww_firepc := ww_firepc x; ac_val := ac_val x; ac_err := ac_err x;
+     ac_res := ac_res x; ac_nonce := ac_nonce x; ac_snap := ac_snap x; ac_cbcanc := ac_cbcanc x; ac_cbres := ac_cbres x;
+     ac_wpark := false; ac_wstale := if ac_wpark x then S (ac_wstale x) else ac_wstale x |}.
+
 Definition cb_return (fx : fixes) (s : st) (c : nat) (res : nat) : st :=
   match nth_error (conss s) c with
   | Some x =>
     match ck x, cpcv x with
     | CKAccess, CAccCb v =>
       let rc := match res with 1 => if ac_cbcanc x || ccanc x then 1 else 0 | _ => res end in
-      if ccanc x then acc_ret s c x 1
+      if ccanc x then acc_ret s c (cb_done x) 1
       else
         let same := Nat.eqb (ac_nonce x) (ac_snap x) in
         let unchanged := if fx_accnonce fx then same
                          else same || (ac_res x && Nat.eqb (ac_err x) 0 && Nat.eqb (ac_val x) v) in
-        if unchanged then acc_ret s c x rc else setc s c (with_cpc x CBlocked)
+        if unchanged then acc_ret s c (cb_done x) rc else setc s c (with_cpc (cb_done x) CBlocked)
     | _, _ => s
+    end
+  | None => s
+  end.
+
+(* the step of a parked watcher goroutine of Access consumer c (the oldest one): a watcher of a finished invocation just goes
+   away; the watcher of the running invocation cancels the callback's context *)
+Definition watch_step (s : st) (c : nat) : st :=
+  match nth_error (conss s) c with
+  | Some x =>
+    match ac_wstale x with
+    | S k => setc s c {| ck := ck x; cref := cref x; ccanc := ccanc x; cpcv := cpcv x; cw_res := cw_res x; ww_res := ww_res x; ww_nonce := ww_nonce x;
+                         ww_prom := ww_prom x; ww_once := ww_once x; ww_fired := ww_fired x; ww_firepc := ww_firepc x; ac_val := ac_val x; ac_err := ac_err x;
+                         ac_res := ac_res x; ac_nonce := ac_nonce x; ac_snap := ac_snap x; ac_cbcanc := ac_cbcanc x; ac_cbres := ac_cbres x;
+                         ac_wpark := ac_wpark x; ac_wstale := k |}
+    | O => if ac_wpark x
+           then setc s c {| ck := ck x; cref := cref x; ccanc := ccanc x; cpcv := cpcv x; cw_res := cw_res x; ww_res := ww_res x; ww_nonce := ww_nonce x;
+                            ww_prom := ww_prom x; ww_once := ww_once x; ww_fired := ww_fired x; ww_firepc := ww_firepc x; ac_val := ac_val x; ac_err := ac_err x;
+                            ac_res := ac_res x; ac_nonce := ac_nonce x; ac_snap := ac_snap x; ac_cbcanc := true; ac_cbres := ac_cbres x;
+                            ac_wpark := false; ac_wstale := 0 |}
+           else s
     end
   | None => s
   end.
@@ -523,7 +558,8 @@ Inductive ev :=
 | EConsCancel (c : nat)
 | EFire (c : nat)                       (* the goroutine spawned by WaitWithReleased's callback: ref.Release(); released() *)
 | ECbReturn (c res : nat)               (* the callback of Access consumer c returns *)
-| ECancelRoot (c : nat).                (* the owner of root context c cancels it *)
+| ECancelRoot (c : nat)                 (* the owner of root context c cancels it *)
+| EWatch (c : nat).                     (* a parked watcher goroutine of Access consumer c takes its step *)
 
 Definition kind_of (k : nat) : cbkind := match k with 0 => KNil | 1 => KLog | _ => KCallsRel end.
 
@@ -556,12 +592,13 @@ Definition step (fx : fixes) (s : st) (e : ev) : st :=
     | Some x => setc s c {| ck := ck x; cref := cref x; ccanc := true; cpcv := cpcv x; cw_res := cw_res x; ww_res := ww_res x;
                             ww_nonce := ww_nonce x; ww_prom := ww_prom x; ww_once := ww_once x; ww_fired := ww_fired x; ww_firepc := ww_firepc x;
                             ac_val := ac_val x; ac_err := ac_err x; ac_res := ac_res x; ac_nonce := ac_nonce x; ac_snap := ac_snap x;
-                            ac_cbcanc := ac_cbcanc x; ac_cbres := ac_cbres x |}
+                            ac_cbcanc := ac_cbcanc x; ac_cbres := ac_cbres x; ac_wpark := ac_wpark x; ac_wstale := ac_wstale x |}
     | None => s
     end
   | EFire c => fire_section s c
   | ECbReturn c res => cb_return fx s c res
   | ECancelRoot c => if Nat.eqb c 0 then s else cancel_root s c
+  | EWatch c => watch_step s c
   end.
 
 Definition run (fx : fixes) (s0 : st) (es : list ev) : st := fold_left (step fx) es s0.
